@@ -167,7 +167,7 @@ func TestC03(t *testing.T) {
 		}
 		return
 	}
-	ev.Rule("per space: declared chromaticities vs published values; 9+9 coefficients recovered by probing basis vectors; then the 8-bit-spaced lattice (64^3 quick / 256^3 thorough) of RGB triples and of XYZ triples, plus rapid float32 triples in [-1,2]^3, through ToXYZ, ColorFromXYZ and both round trips. non-trivial = distinct triple with a component outside [0,1] or all three components different")
+	ev.Rule("per space: declared chromaticities vs published values; 9+9 coefficients recovered by probing basis vectors; then the 8-bit-spaced lattice (64^3 quick / 256^3 thorough) of RGB triples and of XYZ triples, plus rapid float32 triples in [-1,2]^3 (a quarter with components of independent magnitude 1e-44..1e30 and sign), through ToXYZ, ColorFromXYZ and both round trips. non-trivial = distinct triple with a component outside [0,1] or all three components different")
 	ev.Assume("published chromaticities transcribed in internal/ref; equality with published values at the precision of publication (5e-5)")
 	ev.Set("tolerances", map[string]float64{"coefficient": 1e-6, "transform": 1.5e-6, "roundtrip": 2e-6, "published": 5e-5})
 
@@ -205,7 +205,7 @@ func TestC03(t *testing.T) {
 		ev.Class(a.Name+"/lattice", int64((256/step)*(256/step)*(256/step)))
 	}
 	// special values: exact zeros (also -0), tiny, thresholds, out-of-range, in every combination
-	sv := []float32{-1, -1e-6, float32(math.Copysign(0, -1)), 0, 1e-6, 0.0031308, 0.5, 1, 2}
+	sv := []float32{-1, -1e-6, float32(math.Copysign(0, -1)), 0, 1e-6, 0.0031308, 0.5, 1, 2, 1e-30, -1e-40, -1e10, 3e20, -65504}
 	for i := range sp.Spaces {
 		a := &sp.Spaces[i]
 		bad := map[string]bool{}
@@ -238,6 +238,22 @@ func TestC03(t *testing.T) {
 		var v [3]float32
 		for i := range v {
 			v[i] = rapid.Float32Range(-1, 2).Draw(rt, "v")
+		}
+		if rapid.IntRange(0, 3).Draw(rt, "wide") == 0 {
+			// components of unrelated magnitudes and signs: the maps are linear and not clamped, so the result
+			// is within proportional error wherever it is representable (|v| <= 1e30 keeps every product finite)
+			for i := range v {
+				switch rapid.IntRange(0, 5).Draw(rt, "widekind") {
+				case 0:
+					v[i] = 0
+				case 1: // keep the in-range value
+				default:
+					v[i] = float32(math.Pow(10, rapid.Float64Range(-44, 30).Draw(rt, "exp10")))
+					if rapid.Bool().Draw(rt, "neg") {
+						v[i] = -v[i]
+					}
+				}
+			}
 		}
 		c := Case{a.Name, dir, v}
 		ev.Eval(1)
